@@ -223,6 +223,8 @@ class Sim:
         self.switches = 0
         self.stats = {}
         self.switch_hooks = []  # callables(task) run in the thread that receives the baton
+        self.stop_when_main_exits = True
+        self.left_running = []
         self.sticky = 1  # weight of "current task continues" among same-instant candidates
 
     # ---- choices / log ---------------------------------------------------
@@ -289,8 +291,17 @@ class Sim:
             finally:
                 t.done = True
                 _ctx.task = None
-                if not self.aborting:
+                if not self.aborting and t is getattr(self, "main_task", None) and self.stop_when_main_exits:
+                    # the analysis has returned; whatever still runs was left behind (recorded), and
+                    # simulating it further would only burn steps
                     self.ev("exit", t.exit_status)
+                    self.left_running = [x.name for x in self.tasks if not x.done and x.kind != "daemon"]
+                    if self.left_running:
+                        self.ev("left-running", tuple(self.left_running))
+                        self._request_abort("main_done")
+                if not self.aborting:
+                    if t is not getattr(self, "main_task", None) or not self.stop_when_main_exits:
+                        self.ev("exit", t.exit_status)
                     try:
                         self._switch(None)
                     except (SimAbort, SimKilled):
